@@ -393,6 +393,10 @@ sqf::runtime::runtime::result sqf::runtime::runtime::execute(sqf::runtime::runti
             m_is_exit_requested = false;
             m_is_halt_requested = false;
             m_state = state::running;
+            if (m_contexts.empty())
+            { // Nothing to run is no failure: the runtime is (and stays) empty
+                res = result::empty;
+            }
             while (!m_contexts.empty())
             {
                 for (size_t i = 0; i < m_contexts.size(); i++)
@@ -545,6 +549,10 @@ sqf::runtime::runtime::result sqf::runtime::runtime::execute(sqf::runtime::runti
             m_is_halt_requested = false;
             bool success;
             m_state = state::running;
+            if (m_contexts.empty())
+            { // Nothing to run is no failure: the runtime is (and stays) empty
+                res = result::empty;
+            }
             std::optional<diagnostics::diag_info> dinf;
             while (!m_is_exit_requested && !m_is_halt_requested && !m_contexts.empty())
             {
